@@ -985,7 +985,9 @@ PeerConnectionBase::send_pex_message() {
     write_prepare_extension(ProtocolExtension::UT_PEX, pexMessage);
 
   } else {
+    // Nothing was written: let the caller go on with a pending reply.
     m_send_pex_mask = 0;
+    return false;
   }
 
   return true;
